@@ -3,6 +3,8 @@ package eval
 import (
 	"errors"
 	"fmt"
+	"maps"
+	"slices"
 
 	"github.com/cedar-policy/cedar-go/internal/consts"
 	"github.com/cedar-policy/cedar-go/internal/extensions"
@@ -735,7 +737,10 @@ func newRecordLiteralEval(elements map[types.String]Evaler) *recordLiteralEval {
 
 func (n *recordLiteralEval) Eval(env Env) (types.Value, error) {
 	vals := types.RecordMap{}
-	for k, en := range n.elements {
+	// evaluate in key order so that the error reported for a record with several failing
+	// fields does not depend on map iteration order
+	for _, k := range slices.Sorted(maps.Keys(n.elements)) {
+		en := n.elements[k]
 		v, err := en.Eval(env)
 		if err != nil {
 			return zeroValue(), err
